@@ -73,7 +73,14 @@ def call(eng, listener, method, c):
             eng.find_function(PARSER, "ASTListener." + method)      # records file / lines / hash of the method under contract
         except Unsupported:
             pass
-    return eng.call(eng.getattr(listener, method, None, None), [c], {})
+    from pyvc.values import PyRaise
+    try:
+        m = eng.getattr(listener, method, None, None)
+    except PyRaise:
+        m = None
+    if m is None:
+        return None        # ANTLR's generated base listener has an empty enter/exit method for every rule
+    return eng.call(m, [c], {})
 
 
 def put_ast(eng, listener, c, value):
